@@ -1,2 +1,155 @@
-(** placeholder while the harness is developed; replaced by the theorems *)
-From SP Require Import Out.Continuous.
+(** C22 - Continuous factors respect their constraints, inputs and windows.
+
+    Model: Out/Continuous.v ([_sample_continuous], [get_window_val],
+    [check_constraints], the resample loop [sample_continuous] with explicit
+    fuel, the merge of [synthesize_trials]: [synthesize_post]).  The user's
+    distribution functions are an arbitrary parameter
+    [gen name attempt trial inputs]; predicates of ContinuousConstraints are
+    arbitrary functions.  Specification side (Out/ContinuousProofs.v, written
+    from the documentation): [skipped], [doc_window], [doc_dep_input],
+    [value_spec], [experiment_ok].
+
+    SCOPE: safety only.  Whether the resample loop ever returns (liveness)
+    depends on the distribution and is OUT OF SCOPE (partial): the Python loop
+    is unbounded, the model takes fuel, and every statement below has the form
+    "if [synthesize_post] returns [Ok], then ...".
+
+    Also here: what [__check_dependency] guarantees ([C22_dependency_check_partial])
+    and the two statements about it that are false of the model (and of the
+    code): [..._sound_refuted], [..._complete_refuted]. *)
+From Coq Require Import ZArith List Bool String.
+From SP Require Import Out.Continuous Out.ContinuousProofs.
+Import ListNotations.
+Open Scope Z_scope.
+
+(** For any distribution functions, any predicates, any number of factors,
+    trials, experiments and attempts: every returned experiment [m] (paired
+    with the discrete sample [tr] it was merged into) has, for the accepted
+    attempt [att], exactly [T] values per continuous factor, satisfies every
+    ContinuousConstraint predicate at every trial, and each value is the
+    distribution function applied to the documented inputs of the same trial of
+    the same returned sequence ([doc_dep_input]: the discrete level / the
+    continuous value of that trial / the documented window [doc_window] of [m]);
+    in cumulative mode the function result is added to the previous value of
+    the same sequence (0 before the first trial). *)
+Theorem C22_continuous_spec :
+  forall (gen : string -> nat -> nat -> list input -> val)
+         (T : nat) (fs : list cfactor) (cs : list bconstraint) (fuel : nat)
+         (trialss : list dict) (res : list (dict * nat)) (log : list call),
+  fs <> [] -> NoDup (map cf_name fs) ->
+  synthesize_post gen T fs cs fuel trialss = Ok (res, log) ->
+  Forall2
+    (fun (tr : dict) (ma : dict * nat) =>
+       let m := fst ma in
+       exists att, snd ma = S att /\
+         (forall f, In f fs -> exists vs, get m (cf_name f) = Some vs /\ List.length vs = T) /\
+         (forall c, In c (continuous_constraints cs) -> forall i, (i < T)%nat ->
+            cc_pred c (map (fun n => nth i (getd m n) VNaN) (cc_factors c)) = true) /\
+         (forall f, In f fs -> forall i, (i < T)%nat ->
+            let vs := getd m (cf_name f) in
+            let r := gen (cf_name f) att i (map (doc_dep_input tr m i) (cf_deps f)) in
+            if cf_cumulative f then add_val (prev_sum vs i) r = Ok (nth i vs VNaN)
+            else nth i vs VNaN = r))
+    trialss res.
+Proof. exact continuous_spec. Qed.
+Print Assumptions C22_continuous_spec.
+
+(** [get_window_val] per index, for one factor whose values so far are [l]:
+    the result is [doc_window]; it is NaN-filled iff [idx < start] or the
+    stride skips [idx] (and then nothing is read); otherwise entry [-k] is the
+    value [k] trials earlier in the same sequence, NaN exactly for the positions
+    before trial 0, which exist iff [idx < width - 1]; else it is the [width]
+    preceding values. *)
+Theorem C22_window_val_spec : forall w idx d f l,
+  0 <= idx -> get d f = Some l -> idx < Z.of_nat (List.length l) ->
+  window_factor w idx d f = Ok (doc_window w idx l) /\
+  List.length (doc_window w idx l) = Z.to_nat (w_width w) /\
+  (skipped w idx = true <->
+   idx < w_start w \/ (1 < w_stride w /\ (idx - w_start w) mod (w_stride w) <> 0)) /\
+  (skipped w idx = true ->
+   doc_window w idx l = return_nan w /\ forall d' f', window_factor w idx d' f' = Ok (return_nan w)) /\
+  (skipped w idx = false -> forall k, 0 <= k < w_width w ->
+   nth_error (doc_window w idx l) (Z.to_nat k)
+   = Some (- k, if idx - k <? 0 then VNaN else nth (Z.to_nat (idx - k)) l VNaN)) /\
+  ((exists k, 0 <= k < w_width w /\ idx - k < 0) <-> idx < w_width w - 1).
+Proof. exact window_val_spec. Qed.
+Print Assumptions C22_window_val_spec.
+
+(** One dict for a window over a single factor, the list of dicts for several,
+    IndexError for a window without factors. *)
+Theorem C22_window_val_shape : forall w idx d,
+  0 <= idx ->
+  (forall f, In f (w_factors w) -> exists l, get d f = Some l /\ idx < Z.of_nat (List.length l)) ->
+  get_window_val w idx d =
+  match w_factors w with
+  | [] => Err IndexError
+  | [f] => Ok (IWin (doc_window w idx (getd d f)))
+  | fs => Ok (IWins (map (fun f => doc_window w idx (getd d f)) fs))
+  end.
+Proof. exact window_val_shape. Qed.
+Print Assumptions C22_window_val_shape.
+
+(** The merge changes no discrete column: every key that is not the name of a
+    continuous factor has the column the sampler produced; if no continuous
+    factor is named like a key of the sample, the returned dict is literally
+    the sample followed by the continuous columns in design order. *)
+Theorem C22_discrete_untouched :
+  forall (gen : string -> nat -> nat -> list input -> val)
+         (T : nat) (fs : list cfactor) (cs : list bconstraint) (fuel : nat)
+         (trialss : list dict) (res : list (dict * nat)) (log : list call),
+  NoDup (map cf_name fs) ->
+  synthesize_post gen T fs cs fuel trialss = Ok (res, log) ->
+  Forall2
+    (fun (tr : dict) (ma : dict * nat) =>
+       (forall k, ~ In k (map cf_name fs) -> get (fst ma) k = get tr k) /\
+       ((forall k, In k (map cf_name fs) -> get tr k = None) ->
+        exists out, fst ma = tr ++ out /\ map fst out = map cf_name fs))
+    trialss res.
+Proof. exact discrete_untouched. Qed.
+Print Assumptions C22_discrete_untouched.
+
+(** What the constructor's [__check_dependency] guarantees: a direct
+    continuous dependent of an accepted design is an earlier factor of the
+    design (or the factor itself after another continuous dependent, which
+    Python cannot construct). *)
+Theorem C22_dependency_check_partial : forall fs pre f post n,
+  check_dependency fs = true -> fs = pre ++ f :: post -> In (DCont n) (cf_deps f) ->
+  In n (map cf_name pre) \/ n = cf_name f.
+Proof. exact dependency_check_partial. Qed.
+Print Assumptions C22_dependency_check_partial.
+
+(** Full statement that is FALSE: "an accepted design never raises while
+    sampling".  Witness: c1 = f(ContinuousFactorWindow([c0], 2)) declared
+    before c0 (or without c0): accepted, [_sample_continuous] raises KeyError. *)
+Theorem C22_dependency_check_sound_refuted :
+  exists fs T trial, NoDup (map cf_name fs) /\ check_dependency fs = true /\
+    forall gen a, _sample_continuous gen T trial fs a [] = Err KeyError.
+Proof. exact dependency_check_sound_refuted. Qed.
+Print Assumptions C22_dependency_check_sound_refuted.
+
+(** Full statement that is FALSE: "a design whose dependents are all earlier
+    factors of the design is accepted".  Witness: c0 = f(color), c1 = g(c0):
+    rejected although sampling it is well defined. *)
+Theorem C22_dependency_check_complete_refuted :
+  exists fs T trial gen, NoDup (map cf_name fs) /\ check_dependency fs = false /\
+    exists out log, _sample_continuous gen T trial fs O [] = Ok (out, log).
+Proof. exact dependency_check_complete_refuted. Qed.
+Print Assumptions C22_dependency_check_complete_refuted.
+
+(** The hypotheses are satisfiable by a non-trivial object: four continuous
+    factors (independent; window of width 2; cumulative; discrete + continuous
+    dependents), a ContinuousConstraint that rejects the first attempt, two
+    experiments of three trials. *)
+Example C22_example_runs :
+  ex_fs <> [] /\ NoDup (map cf_name ex_fs) /\
+  exists log, synthesize_post ex_gen 3 ex_fs ex_cs 5 ex_trials = Ok (ex_result, log).
+Proof. split; [discriminate|]. split; [exact ex_names_nodup|exact ex_runs]. Qed.
+
+Example C22_example_window :
+  (* width 3, stride 2, start 1 over rt = 10, 11, 12, 13 *)
+  map (fun idx => get_window_val ex_window idx ex_dict) [0; 1; 2; 3]
+  = [ Ok (IWin [(0, VNaN); (-1, VNaN); (-2, VNaN)]);          (* before start *)
+      Ok (IWin [(0, VNum 11); (-1, VNum 10); (-2, VNaN)]);    (* reaches before trial 0 *)
+      Ok (IWin [(0, VNaN); (-1, VNaN); (-2, VNaN)]);          (* skipped by the stride *)
+      Ok (IWin [(0, VNum 13); (-1, VNum 12); (-2, VNum 11)]) ].
+Proof. reflexivity. Qed.
